@@ -147,7 +147,9 @@ def gen_module(ctx, name, base, cap, prog, tab, trace):
 def run_impl(ctx):
     q = ctx.quick
     A, R, RL = "acq", "rel0", "rell0"
-    progs = [(2, [[A, RL], [A, R, A]], 2), (1, [[A, A], [A, R]], 2), (2, [[A, A, RL], [A, RL]], 1), (1, [[A, RL, A], [A]], 2)]
+    progs = [(2, [[A, RL], [A, R, A]], 2), (1, [[A, A], [A, R]], 2)]
+    if not q:
+        progs += [(2, [[A, A, RL], [A, RL]], 1), (1, [[A, RL, A], [A]], 2)]
     tab, drift_any, prepared = {}, False, []
     for n, (cap, prog, bound) in enumerate(progs):
         out = ctx.path("traces", f"ruis-impl-{n}.ndjson")
@@ -182,7 +184,7 @@ def run_impl(ctx):
     if drift_any:
         ctx.note("ruis_impl: weak-memory argument for the robust index set not applicable to this build (drift)")
         return
-    for n, cap, prog, recs, execs in prepared[:2 if q else 4]:
+    for n, cap, prog, recs, execs in prepared[:1 if q else 4]:
         tf = ctx.path("traces", f"ruis-impl-{n}-labelled.ndjson")
         vp.write_ndjson(tf, recs)
         name = f"RUT_{n}"
